@@ -77,12 +77,12 @@ def pcOf (addr : Nat) : Nat := (addr + 4) % 4294967296
 
 def sfx (flags : Bool) : Bytes := if flags then bytesOf "S" else []
 
-private def two (m : String) (a b : Bytes) : Bytes := bytesOf m ++ bytesOf " " ++ a ++ bytesOf ", " ++ b ++ bytesOf ";"
-private def three (m : Bytes) (a b c : Bytes) : Bytes :=
+def two (m : String) (a b : Bytes) : Bytes := bytesOf m ++ bytesOf " " ++ a ++ bytesOf ", " ++ b ++ bytesOf ";"
+def three (m : Bytes) (a b c : Bytes) : Bytes :=
   m ++ bytesOf " " ++ a ++ bytesOf ", " ++ b ++ bytesOf ", " ++ c ++ bytesOf ";"
-private def mem (m : String) (d a o : Bytes) : Bytes :=
-  bytesOf m ++ bytesOf " " ++ d ++ bytesOf ", [" ++ a ++ bytesOf " + " ++ o ++ bytesOf "];"
-private def one (m : Bytes) (a : Bytes) : Bytes := m ++ bytesOf " " ++ a ++ bytesOf ";"
+def mem (m : String) (d a o : Bytes) : Bytes :=
+  bytesOf m ++ bytesOf " " ++ d ++ bytesOf ", " ++ bytesOf "[" ++ a ++ bytesOf " + " ++ o ++ bytesOf "]" ++ bytesOf ";"
+def one (m : Bytes) (a : Bytes) : Bytes := m ++ bytesOf " " ++ a ++ bytesOf ";"
 
 /-- `impl Display for InstrAt` -/
 def text (i : Instr) (a : Nat) : Bytes :=
